@@ -1549,6 +1549,7 @@ func specHasClosureVar(m map[*runtime.Function]map[string]int16, fn *runtime.Fun
 
 //@ func (*varStore).createScriggoPackageVar
 //@   props X00 C17
+//@   opt inline always
 //@   panics allowed
 //@   requires vs != nil && vs.scriggoPackageVarRefs != nil
 //@   requires len(vs.globals) < 32000
@@ -1572,6 +1573,7 @@ func specHasClosureVar(m map[*runtime.Function]map[string]int16, fn *runtime.Fun
 
 //@ func (*varStore).bindScriggoPackageVar
 //@   props X00 C17
+//@   opt inline always
 //@   panics allowed
 //@   requires vs != nil && vs.scriggoPackageVarRefs != nil
 //@   ensures[C17] specHasPkgVar(vs.scriggoPackageVarRefs, pkg, name) && vs.scriggoPackageVarRefs[pkg][name] == index
@@ -1579,6 +1581,7 @@ func specHasClosureVar(m map[*runtime.Function]map[string]int16, fn *runtime.Fun
 
 //@ func (*varStore).setClosureVar
 //@   props X00 C17
+//@   opt inline always
 //@   panics allowed
 //@   requires vs != nil && vs.closureVars != nil
 //@   ensures[C17] specHasClosureVar(vs.closureVars, fn, name) && vs.closureVars[fn][name] == index
@@ -1586,6 +1589,7 @@ func specHasClosureVar(m map[*runtime.Function]map[string]int16, fn *runtime.Fun
 
 //@ func (*varStore).setPredefVarRef
 //@   props X00 C17
+//@   opt inline always
 //@   panics allowed
 //@   requires vs != nil && vs.predefVarRef != nil
 //@   ensures[C17] specHasPredefRef(vs.predefVarRef, fn, v) && vs.predefVarRef[fn][v] == index
